@@ -29,6 +29,19 @@ def run(ctx, ss):
         ctx.guard(r, f, ss)
 
 
+def _norm_name(ff, flow):
+    """The local that divides the branching fraction in the printed rows (bf / <norm>)."""
+    names = set()
+    for n in pf.walk_no_nested(ff.node):
+        if isinstance(n, ast.BinOp) and isinstance(n.op, ast.Div) and isinstance(n.right, ast.Name) and isinstance(n.left, ast.Name):
+            ds = flow.defs_of(n.left)
+            if ds and all(d.kind == "for" for d in ds):
+                names.add(n.right.id)
+    if len(names) != 1:
+        raise AnchorMissing(f"print_decay_modes: the common divisor of the printed branching fractions is not a single local ({sorted(names)})")
+    return names.pop()
+
+
 def _sort_calls(ff):
     out = []
     for c in pf.calls_in(ff.node, nested=False):
@@ -93,7 +106,8 @@ def c16_1(ctx, ss):
         ctx.violation("C16.1", key, where(ff, c), f"the option `ascending` never reaches the sort `{txt(c)[:80]}`: the requested direction is ignored")
     # C16.2 both cases
     # index of the reference element used for scaling
-    norm_defs = [d for d in flow.defs if d.name == "norm" and d.kind == "assign"]
+    NORM = _norm_name(ff, flow)
+    norm_defs = [d for d in flow.defs if d.name == NORM and d.kind == "assign"]
     ref = None
     for d in norm_defs:
         v = flow.expand(d.value)
@@ -277,7 +291,8 @@ def c16_5(ctx, ss):
     else:
         ctx.violation("C16.5", k, where(ff, prints[0]), f"the two row formats disagree or do not use .7g of bf/norm: {specs}")
     # norm: 1.0 by default, sum under normalize, largest/scale under scale
-    nd = [d for d in flow.defs if d.name == "norm" and d.kind == "assign"]
+    NORM = _norm_name(ff, flow)
+    nd = [d for d in flow.defs if d.name == NORM and d.kind == "assign"]
     texts = sorted(txt(flow.expand(d.value))[:40] for d in nd)
     has_sum = any(t.startswith("sum(") for t in texts)
     has_one = any(t in ("1.0", "1") for t in texts)
@@ -303,11 +318,14 @@ def c16_6(ctx, ss):
     prints = [c for c in pf.calls_in(ff.node) if isinstance(c.func, ast.Name) and c.func.id == "print"]
     a = prints[0].args[0]
     # the `line` definitions: the one mentioning model must be under print_model
-    lines = [d for d in flow.defs if d.name == "line" and d.kind == "assign"]
+    pa = [x.id for x in ast.walk(prints[0].args[0]) if isinstance(x, ast.Name)]
+    lines = [d for d in flow.defs if pa and d.name == pa[0] and d.kind == "assign"]
     okm = False
     for d in lines:
         conds = [(txt(e), pol) for kind, e, pol in guards.path_conditions(ff.node, d.stmt) if kind == "if"]
-        has_model = "model" in {x.id for x in ast.walk(d.value) if isinstance(x, ast.Name)}
+        ploop = enclosing(ff, prints[0], (ast.For,))[0]
+        mnames = {e.id for e in ploop.target.elts[2:]} if isinstance(ploop.target, ast.Tuple) and len(ploop.target.elts) == 4 else {"model"}
+        has_model = bool(mnames & {x.id for x in ast.walk(d.value) if isinstance(x, ast.Name)})
         if has_model and conds == [("print_model", True)]:
             okm = True
         if (not has_model) and conds != [("print_model", False)]:
